@@ -1325,16 +1325,30 @@ static void gen_stmt(Node *node) {
       char *ax = (node->cond->ty->size == 8) ? "%rax" : "%eax";
       char *di = (node->cond->ty->size == 8) ? "%rdi" : "%edi";
 
+      // A case value of a 64-bit switch may not fit in the 32-bit
+      // immediate of cmp/sub, so it is loaded into a register first.
       if (n->begin == n->end) {
-        println("  cmp $%ld, %s", n->begin, ax);
+        if (n->begin == (int)n->begin || node->cond->ty->size != 8) {
+          println("  cmp $%ld, %s", n->begin, ax);
+        } else {
+          println("  mov $%ld, %%rdx", n->begin);
+          println("  cmp %%rdx, %%rax");
+        }
         println("  je %s", n->label);
         continue;
       }
 
       // [GNU] Case ranges
       println("  mov %s, %s", ax, di);
-      println("  sub $%ld, %s", n->begin, di);
-      println("  cmp $%ld, %s", n->end - n->begin, di);
+      if (node->cond->ty->size != 8) {
+        println("  sub $%ld, %s", n->begin, di);
+        println("  cmp $%ld, %s", n->end - n->begin, di);
+      } else {
+        println("  mov $%ld, %%rdx", n->begin);
+        println("  sub %%rdx, %%rdi");
+        println("  mov $%ld, %%rdx", n->end - n->begin);
+        println("  cmp %%rdx, %%rdi");
+      }
       println("  jbe %s", n->label);
     }
 
